@@ -1,4 +1,6 @@
 """C19 - sorting an object yields a sorted permutation and a healthy tree."""
+import ctypes
+
 from hypothesis import strategies as st
 
 from .. import gens
@@ -27,10 +29,12 @@ class C19(Prop):
             "under the variant's order, members are exactly the same nodes, a second sort changes nothing (node order too when keys are "
             "distinct); after EVERY step every live tree equals the list/map model (so subtrees are untouched and sibling/tail links are "
             "healthy), every append/insert/detach/replace returns what the model predicts, final deletion empties the ledger. "
+            "Plus objects of 1000..400000 members (keys descending, ascending, random, all equal, short runs, duplicates, mixed case) sorted "
+            "directly or through a sorting utility, checked natively: key order, member count, chain and tail link, an append lands at the end, a second sort changes nothing. "
             "non-trivial = a sort (or sorting utility) on an object of >= 3 members that was not already sorted, followed by >= 1 append; "
             "distinct by program hash")
     ASSUMPTIONS = ["node order among members with equal keys after a sort is not asserted (the statement does not claim stability)"]
-    REQUIRED_CLASSES = ["sort", "util_sorting", "sort_unsorted>=3", "nontrivial_program"]
+    REQUIRED_CLASSES = ["sort", "util_sorting", "sort_unsorted>=3", "nontrivial_program", "big_object>10001"]
 
     def budget(self, tier):
         return {"workers": 14, "examples": 700 if tier == "quick" else 15000}
@@ -38,9 +42,34 @@ class C19(Prop):
     def strategy(self, tier):
         from .c06 import seed_trees
         seeds = st.tuples(st.lists(wide_objects(), min_size=1, max_size=2), seed_trees(2)).map(lambda t: t[0] + t[1])
-        return st.fixed_dictionaries({"seeds": seeds, "ops": op_records(OPS_C19, 45)})
+        main = st.fixed_dictionaries({"seeds": seeds, "ops": op_records(OPS_C19, 45)})
+        # very large objects ("any size"): key order, member count, chain, tail link, append and idempotence are checked natively
+        big = st.fixed_dictionaries({"kind": st.just("big"),
+                                     "n": st.sampled_from([1000, 4096, 10000, 10001, 10002, 10003, 12000, 20000, 65536, 65537, 150000, 300000, 400000]),
+                                     "order": st.integers(0, 6), "cs": st.integers(0, 1), "how": st.sampled_from([0, 0, 0, 1, 2, 3])})
+        return gens.weighted((79, main), (1, big))
+
+    def run_big(self, lib, case, stats):
+        msg = ctypes.create_string_buffer(200)
+        live = lib.ledger_live()
+        rc = lib.shim_big_sort(case["n"], case["order"], case["cs"], case["how"], msg, 200)
+        stats.inner += 1
+        stats.cls("big_object")
+        if case["n"] > 10001:
+            stats.cls("big_object>10001")
+        stats.nontriv(["big", case["n"], case["order"], case["cs"], case["how"]], dict(case))
+        if rc < 0:
+            raise RuntimeError("harness: shim_big_sort: " + msg.value.decode())
+        if rc:
+            raise Violation("object of %d members (key order class %d, %s, via %s): %s" % (
+                case["n"], case["order"], "case-sensitive" if case["cs"] else "case-insensitive",
+                ["SortObject", "patch test", "GeneratePatches", "GenerateMergePatch"][case["how"]], msg.value.decode()), key="big:%d" % rc)
+        if lib.ledger_live() != live:
+            raise Violation("blocks left allocated after sorting a large object", key="leak")
 
     def run_case(self, lib, case, stats):
+        if case.get("kind") == "big":
+            return self.run_big(lib, case, stats)
         w, it = run_program(lib, case, stats)
         stats.inner += w.steps
         for f in it.feat:
@@ -65,6 +94,8 @@ class C19(Prop):
             raise Violation("foreign or double free", key="free")
 
     def shrink_candidates(self, case):
+        if case.get("kind") == "big":
+            return [dict(case, n=n) for n in (1000, 10002, 20000, 150000) if n < case["n"]]
         ops = case["ops"]
         out = [dict(case, ops=ops[:i] + ops[i + 1:]) for i in range(len(ops))]
         for i in range(len(case.get("seeds", []))):
